@@ -125,6 +125,19 @@ def run_case(case):
                 wsj, cj, _o = snap()
                 events.append({"act": {"op": "Arrive", "c": op["c"]}, "ws": wsj, "cache": cj, "flags": {}})
                 continue
+            if op.get("op") == "Replace":
+                # the user moves another file of the same size into place and gives it the old file's time stamp
+                p = os.path.join(w.path, *KEYS[op["k"]].split("/")) if op["k"] != "." else w.path
+                if os.path.lexists(p) and not os.path.isdir(p):
+                    st = os.stat(p)
+                    tmp = p + ".incoming"
+                    with open(tmp, "wb") as fh:
+                        fh.write(CONTENTS[op["c"]])
+                    os.utime(tmp, ns=(st.st_atime_ns, st.st_mtime_ns))
+                    os.replace(tmp, p)
+                    wsj, cj, _o = snap()
+                    events.append({"act": {"op": "Replace", "k": op["k"], "c": op["c"]}, "ws": wsj, "cache": cj, "flags": {}})
+                continue
             if op.get("op") == "Corrupt":
                 # the object is replaced by a file of other bytes, left writable (an interrupted write, an edit through a link)
                 p = w.cache_path(OID[op["c"]])
@@ -314,6 +327,38 @@ def corrupt_between_cases():
     return cases
 
 
+def replace_cases():
+    """Between two checkouts of one process the user replaces workspace files by files of equal size carrying the old time
+    stamps (c1 and c2 are twins): by content the cache cannot give back, then an unforced checkout of something else; or the
+    two files of a tree swapped, then a forced checkout of the same tree."""
+    cases, n = [], 990000
+    both = {"kind": "tree", "listing": {"a": "c1", "s/b": "c2"}}
+    for link in ("copy", "hard", "sym"):
+        for cls in ("local", "generic"):
+            for state in (True, False):
+                # (i) the replacement is the user's own data: c2 is not in the cache
+                for t1, k in (({"kind": "tree", "listing": {"a": "c1"}}, "a"), ({"kind": "file", "c": "c1"}, "."),
+                              ({"kind": "tree", "listing": {"a": "c0", "s/b": "c1"}}, "s/b")):
+                    for t2 in ({"kind": "tree", "listing": {"a": "c0", "s/b": "c0"}}, {"kind": "none"}, {"kind": "file", "c": "c0"},
+                               {"kind": "tree", "listing": {}}):
+                        for force, prompt in ((False, "absent"), (False, "declines")):
+                            cases.append({"id": n, "link": link, "cls": cls, "state": state,
+                                          "init": {"ws": {"kind": "absent"}, "cache": {"c0": "ok", "c1": "ok"}, "dirobjs": []},
+                                          "ops": [{"t": t1, "force": False, "relink": False, "prompt": "absent", "sp": "plain"},
+                                                  {"op": "Replace", "k": k, "c": "c2"},
+                                                  {"t": t2, "force": force, "relink": False, "prompt": prompt, "sp": "plain"}]})
+                            n += 1
+                # (ii) the two files of the tree swapped; everything is in the cache
+                for force in (True, False):
+                    cases.append({"id": n, "link": link, "cls": cls, "state": state,
+                                  "init": {"ws": {"kind": "absent"}, "cache": {"c0": "ok", "c1": "ok", "c2": "ok"}, "dirobjs": []},
+                                  "ops": [{"t": both, "force": False, "relink": False, "prompt": "absent", "sp": "plain"},
+                                          {"op": "Replace", "k": "a", "c": "c2"}, {"op": "Replace", "k": "s/b", "c": "c1"},
+                                          {"t": both, "force": force, "relink": False, "prompt": "accepts", "sp": "plain"}]})
+                    n += 1
+    return cases
+
+
 def dangling_cases():
     """A prior directory that holds a dangling symbolic link next to user files the cache cannot give back."""
     cases, n = [], 960000
@@ -427,7 +472,7 @@ def _check(run: core.Run, focus, replay=None):
         cases = [replay["witness"]["case"]]
     else:
         gen = generate()
-        cases = directed_cases() + evict_cases() + arrive_cases() + corrupt_between_cases() + dangling_cases() + mixed_link_cases() + make_cases(gen, rng, 2400 if quick else 24000, focus)
+        cases = directed_cases() + evict_cases() + arrive_cases() + corrupt_between_cases() + replace_cases() + dangling_cases() + mixed_link_cases() + make_cases(gen, rng, 2400 if quick else 24000, focus)
     traces = execute_and_validate(run, cases)
     run.extra["rule"] = ("TLC-generated prior workspaces (absent / file / directory, files as copies, hard links or symbolic links), "
                          "cache contents (present, absent, corrupt per object; directory object cached or not), targets (none / file / "
